@@ -615,8 +615,16 @@ class RxPipeline(Elaboratable):
         m.d.comb += [
             bitstuff.i_valid.eq(nrzi.o_valid),
             bitstuff.i_data.eq(nrzi.o_data),
-            self.o_receive_error.eq(bitstuff.o_error)
         ]
+
+        # Our error strobe lasts a single 48 MHz cycle; stretch it to four, so the 12 MHz domain that
+        # samples it sees it on exactly one of its clock edges -- whatever the phase between the clocks.
+        error_stretch = Signal(2)
+        with m.If(bitstuff.o_error):
+            m.d.usb_io += error_stretch.eq(3)
+        with m.Elif(error_stretch != 0):
+            m.d.usb_io += error_stretch.eq(error_stretch - 1)
+        m.d.comb += self.o_receive_error.eq(bitstuff.o_error | (error_stretch != 0))
 
         #
         # 1bit->8bit (1byte) gearing
